@@ -136,6 +136,18 @@ def case(rng):
             acc = list(l)
             order = list(reversed(l))
         return forms, ["N", "V " + canon(acc), ("T", ["i:%d" % y for y in order])]
+    if p in ("list-tail", "list-ref") and rng.random() < 0.3:
+        # IMPROPER lists: list-tail takes k cdrs (the tail itself after all the pairs, an error beyond); list-ref is the car of
+        # that - an error when what is left is not a pair, in particular at k = the number of pairs
+        l = gen_list(rng, 4, 1, improper=1.0)
+        if isinstance(l, Imp):
+            k = rng.randrange(0, len(l.items) + 2)
+            def tail():
+                if k > len(l.items): raise TypeError
+                return l.tail if k == len(l.items) else Imp(l.items[k:], l.tail)
+            if p == "list-tail":
+                return ["(list-tail %s %d)" % (q(l), k)], [res(tail)]
+            return ["(list-ref %s %d)" % (q(l), k)], [res(lambda: car(tail()))]
     if p == "list-tail":
         l = gen_list(rng, 6, 1); k = rng.randrange(0, len(l) + 3)
         def f():
